@@ -7,6 +7,9 @@ from .strictdiff import replay_generic, report, strict_pair
 
 ID = "C04"
 LEVEL = "fault_enumeration"
+MIX = True  # a share of the decodes goes through the other front ends and byte sources (context.py)
+HISTORY = True  # every second shard first runs a prelude of earlier library use (history.py)
+OLANE = True  # two more shards run in an interpreter started with -O (runner.start_olane)
 RULE = (
     "every constrained leaf (declared set smaller than its width) of every hypothesis-generated well-formed message replaced by each "
     "value just outside an interval of its set, 0 and the width limits (when outside), and by every valid interval end (must stay "
@@ -40,6 +43,12 @@ def check_case(ctx, L, ex):
     case, data = ex
     model_for_case(L, case)
     ctx.count("messages")
+    # "if and only if": the unperturbed message (every field in range) is accepted
+    ref, obs = strict_pair(L, case.type, case.data, case.cc, case.enc)
+    ctx.case((case.type, case.cc, case.enc, case.data), False)
+    ctx.count("fault:none")
+    if not report(ctx, ID, L, case.type, case.data, case.cc, case.enc, ref, obs, extra="unperturbed: every field is in range"):
+        return
     for i, nv, label in faults.value_perturbations(L, case):
         ctx.add("leaf_types", case.tokens[i][1])
         if not one(ctx, L, case, {i: nv}, label):
@@ -87,8 +96,9 @@ def run_shard(ctx):
     q = ctx.quick()
     for name, strat, n in (
         ("commands", gen.commands(L), 120 if q else 3000),
-        ("responses", gen.responses(L, unknown_cc=False), 120 if q else 3000),
+        ("responses", gen.responses(L), 120 if q else 3000),
         ("structures", gen.structures(L), 260 if q else 6000),
+        ("streams", gen.streams(L, max_pairs=3), 60 if q else 1500),
     ):
         ctx.run_given(st.tuples(strat, st.data()), body, ctx.share(n), name=name)
     # every constrained primitive type on its own (first field = whole input)
